@@ -192,6 +192,14 @@ def handle (cmd : String) (args : List String) : Option String :=
       let vr := s!"{compLen dl 0}{if (compGet dl 0 0).isSome then "o" else "e"}"
       some (" ".intercalate ([toString (compLen dl il)] ++ marks ++ [vr]))
     | _, _ => none
+  | "hd.trav", [dl, il] =>
+    -- number of items the traversal of a computed-size record array yields
+    match dl.toNat?, il.toNat? with
+    | some dl, some il =>
+      match travTrace dl il with
+      | none => some "fuel"
+      | some evs => some (toString (items evs).length)
+    | _, _ => none
   | "hd.fd.read", [hex, o, w] =>
     match parseHex? hex, o.toNat?, w.toNat? with
     | some d, some o, some w =>
